@@ -94,7 +94,7 @@ def finish(prop, tier, seed, obs, t0, checker_cmds, trusted_base, assumptions, e
         if ob.status == FAILED:
             hit = None
             for k in kf:
-                if k.get("obligation") == ob.id:
+                if k.get("obligation") == ob.id or (k.get("obligation_prefix") and ob.id.startswith(k["obligation_prefix"])):
                     hit = k
             if hit is not None:
                 known_hits.append((ob, hit))
@@ -102,7 +102,8 @@ def finish(prop, tier, seed, obs, t0, checker_cmds, trusted_base, assumptions, e
                 violations.append(ob)
         elif ob.status == UNDECIDED:
             undecided.append(ob)
-    proved = [o for o in obs if not o.bounded]
+    known_ids = set(o.id for o, _ in known_hits)
+    proved = [o for o in obs if not o.bounded and o.id not in known_ids]
     bnd = [o for o in obs if o.bounded]
     funcs = sorted(set(o.func for o in obs))
     by_engine = {}
@@ -148,8 +149,12 @@ def finish(prop, tier, seed, obs, t0, checker_cmds, trusted_base, assumptions, e
     if os.environ.get("VERIF_VERBOSE"):
         for o in sorted(obs, key=lambda o: o.time):
             print("  %-10s %8.1fs %-14s %-40s %s" % (o.status, o.time, o.label, o.id, o.detail[:160].replace("\n", " ")))
+    printed = set()
     for ob, k in known_hits:
-        print("KNOWN-FINDING: property=%s %s" % (prop, k.get("what", ob.id)))
+        key = k.get("what", ob.id)
+        if key in printed: continue
+        printed.add(key)
+        print("KNOWN-FINDING: property=%s %s" % (prop, key))
     for ob in violations:
         path = ob.replay
         if path is None:
